@@ -93,7 +93,9 @@ def _decl(p):
         mn, mx = min(p.AllowableRange), max(p.AllowableRange)
     return {'cls': p.cls, 'min': None if mn is None else float(mn), 'max': None if mx is None else float(mx),
             'default': _jsonable(_norm_default(p.DefaultValue)), 'units': p.CurrentUnits, 'pref': p.PreferredUnits,
-            'required': bool(p.Required)}
+            'required': bool(p.Required),
+            # the value the object holds (for a freshly built module: what the simulator uses when the parameter is omitted)
+            'held': _jsonable(_norm_default(p.value)) if isinstance(getattr(p.value, 'int_value', p.value), (int, float)) and not isinstance(p.value, bool) else None}
 
 
 def _jsonable(v):
@@ -286,6 +288,18 @@ def run(ctx):
                 okd = sd == d['default']
             mon.check('schema-default', okd, mechanism='C19/schema-default-differs-from-declaration:' + name, parameter=name, schema=sd,
                       live=d['default'])
+            # ... and the published default is what a freshly built module actually starts from (the value used when the
+            # parameter is omitted); judged on the generator's own freshly built instances
+            fresh = [dd for cls_, dd in defs if cls_ in genout['class_decls'] and dd.get('held') is not None]
+            if fresh and sd is not None:
+                try:
+                    held = float(fresh[0]['held'])
+                    okh = abs(float(sd) - held) <= 1e-9 * max(1.0, abs(float(sd)))
+                    mon.check('schema-default-is-the-value-used-when-omitted', okh,
+                              mechanism='C19/schema-default-differs-from-the-value-used-when-the-parameter-is-omitted:' + name,
+                              parameter=name, schema_default=sd, value_held_by_a_fresh_module=held)
+                except (TypeError, ValueError):
+                    pass
         su = sc.get('units')
         mon.check('schema-units', (su or None) == (d['units'] or None) or (su is None and d['units'] in (None, 'None')),
                   mechanism='C19/schema-unit-differs-from-declaration', parameter=name, schema=su, live=d['units'])
